@@ -9,9 +9,9 @@ pub(crate) fn is_clean(b: &InnerBucket) -> bool {
 }
 
 // ---- C15: the 16-byte bucket header value: root page then counter, little endian, both directions
-// @ob props=C15,C01 tier=quick cap=200 fns=BucketMeta::from<&[u8]>,BucketMeta::as_ref bound="all 16 bytes symbolic, any alignment offset 0..8 of the source slice" unwind=5
+// @ob props=C15,C01 tier=quick cap=200 fns=BucketMeta::from<&[u8]>,BucketMeta::as_ref bound="all 16 bytes symbolic, any alignment offset 0..8 of the source slice" unwind=17
 #[kani::proof]
-#[kani::unwind(5)]
+#[kani::unwind(17)]
 fn bucket_meta_codec() {
     let raw: [u8; 24] = kani::any();
     let off: usize = kani::any();
@@ -273,11 +273,11 @@ macro_rules! put_harness {
         }
     };
 }
-// @ob props=C01,C07 tier=quick cap=900 fns=InnerBucket::put,InnerBucket::put_leaf,InnerBucket::node,Node::from_page,Node::insert_data,InnerBucket::get bound="root leaf page with 2 sorted symbolic 2-byte keys; put of a new symbolic key BELOW both, symbolic value; then the leaf is inspected" unwind=5
+// @ob props=C01,C07 tier=quick cap=700 fns=InnerBucket::put,InnerBucket::put_leaf,InnerBucket::node,Node::from_page,Node::insert_data,InnerBucket::get bound="root leaf page with 2 sorted symbolic 2-byte keys; put of a new symbolic key BELOW both, symbolic value; then the leaf is inspected" unwind=5
 put_harness!(bucket_put_new_below, 0);
-// @ob props=C01,C07 tier=quick cap=900 fns=InnerBucket::put,InnerBucket::put_leaf,InnerBucket::node,Node::from_page,Node::insert_data,InnerBucket::get bound="same leaf; put OVER the first key" unwind=5
+// @ob props=C01,C07 tier=quick cap=700 fns=InnerBucket::put,InnerBucket::put_leaf,InnerBucket::node,Node::from_page,Node::insert_data,InnerBucket::get bound="same leaf; put OVER the first key" unwind=5
 put_harness!(bucket_put_over_first, 1);
-// @ob props=C01,C07 tier=quick cap=900 fns=InnerBucket::put,InnerBucket::put_leaf,InnerBucket::node,Node::from_page,Node::insert_data,InnerBucket::get bound="same leaf; put of a new symbolic key BETWEEN the two" unwind=5
+// @ob props=C01,C07 tier=thorough cap=900 fns=InnerBucket::put,InnerBucket::put_leaf,InnerBucket::node,Node::from_page,Node::insert_data,InnerBucket::get bound="same leaf; put of a new symbolic key BETWEEN the two" unwind=5
 put_harness!(bucket_put_new_between, 2);
 // @ob props=C01,C07 tier=thorough cap=900 fns=InnerBucket::put,InnerBucket::put_leaf,InnerBucket::node,Node::from_page,Node::insert_data,InnerBucket::get bound="same leaf; put OVER the second key" unwind=5
 put_harness!(bucket_put_over_second, 3);
@@ -337,7 +337,7 @@ macro_rules! delete_harness {
 }
 // @ob props=C01,C07 tier=quick cap=900 fns=InnerBucket::delete,InnerBucket::node,Node::from_page,Node::delete,InnerBucket::get bound="root leaf page with 2 sorted symbolic 2-byte keys; delete of the FIRST key; then a lookup" unwind=5
 delete_harness!(bucket_delete_first, 0);
-// @ob props=C01,C07 tier=quick cap=900 fns=InnerBucket::delete,InnerBucket::node,Node::from_page,Node::delete,InnerBucket::get bound="same leaf; delete of the SECOND key" unwind=5
+// @ob props=C01,C07 tier=thorough cap=900 fns=InnerBucket::delete,InnerBucket::node,Node::from_page,Node::delete,InnerBucket::get bound="same leaf; delete of the SECOND key" unwind=5
 delete_harness!(bucket_delete_second, 1);
 // @ob props=C01,C07,C06 tier=quick cap=900 fns=InnerBucket::delete,InnerBucket::get bound="same leaf; delete of an ABSENT symbolic key" unwind=5
 delete_harness!(bucket_delete_absent, 2);
